@@ -132,7 +132,7 @@ def net_session(rng, nblocks, depth):
     return "net 1 0 " + " ; ".join(ops)
 
 
-USED_HEAD = "rf 1 1 new z rf24 0 ; z enter ; "
+USED_HEADS = ("rf 1 1 new z rf24 0 ; z enter ; ", "rf 1 0 new z rf24 0 ; z enter ; ")   # plus / non-plus chip
 _FRESH = {}
 
 
@@ -144,19 +144,43 @@ def used_radio_session(rng, depth):
         if "carrier_wave" not in op:
             ops.append(op)
     kind = rng.choice(["rf24", "rf24", "ble"])
-    return USED_HEAD + " ; ".join(ops + ["z exit", f"new a {kind} 0", "a enter", "a get channel"])
+    return USED_HEADS[0 if rng.random() < 0.7 else 1] + " ; ".join(ops + ["z exit", f"new a {kind} 0", "a enter", "a get channel"])
+
+
+def constructor_chain_sessions():
+    """every chain of up to three constructors (RF24 / FakeBLE) on one chip, plus and non-plus, then a block of every
+    object in construction order and again in reverse order: the prior chip states a constructor can meet through the
+    library (feature registers locked / unlocked, FEATURE 0 / 5) - the family of the former finding K1"""
+    import itertools
+    out = []
+    for p in ("1", "0"):
+        for k in (1, 2, 3):
+            for chain in itertools.product(["rf24", "ble"], repeat=k):
+                names = ["a", "b", "c"][:k]
+                ops = [f"new {n} {kd} 0" for n, kd in zip(names, chain)]
+                for n in names + names[::-1]:
+                    ops += [f"{n} enter", f"{n} exit"]
+                out.append(f"rf 1 {p} " + " ; ".join(ops))
+    return out
 
 
 def judge_used_radio(l, io):
     """settings made through one object never leak into another object's configuration: the registers after the new
     object's first `__enter__` are those it has on a fresh chip"""
     names, ops = l.split(" ; "), parse_out(io)
-    kind = next(n.split()[2] for n in names if n.startswith("new a "))
+    kind = next(n.split()[2] for n in names if n.startswith("new a ")) + "/" + l.split()[2]    # class / chip variant
     if kind not in _FRESH:
-        r = parse_out(run_line(f"rf 1 1 new a {kind} 0 ; a enter"))[1]["radios"][0]
+        r = parse_out(run_line(f"rf 1 {kind.split('/')[1]} new a {kind.split('/')[0]} 0 ; a enter"))[1]["radios"][0]
         # the pipe and TX addresses are *adopted* from the radio by RF24.__init__ (it reads them into its shadows: the driver
         # has no default addresses of its own), so they are whatever the radio held - by design, not a leak
         _FRESH[kind] = {k: r.get(k) for k in CFG_KEYS if k not in ("a0", "a1", "an", "tx")}
+        # the same registers on either chip variant (the non-plus chip's feature registers are unlocked by the constructor)
+        want = {"rf24": {"dyn": "63", "feat": "5"}, "ble": {"dyn": "0", "feat": "0"}}[kind.split("/")[0]]
+        for key, v in want.items():
+            if _FRESH[kind].get(key) != v:
+                return Finding(f"rf 1 {kind.split('/')[1]} new a {kind.split('/')[0]} 0 ; a enter",
+                               f"op 1: a fresh {kind.split('/')[0]} object enters its block with register {key}={_FRESH[kind].get(key)}; "
+                               f"its configuration says {v}", {"op_index": 1})
     for k, (name, o) in enumerate(zip(names, ops)):
         if name == "a enter" and o["radios"]:
             if o["res"].startswith("exc="):
@@ -164,7 +188,7 @@ def judge_used_radio(l, io):
             r = o["radios"][0]
             for key, want in _FRESH[kind].items():
                 if r.get(key) != want:
-                    return Finding(l, f"op {k}: a {kind} object constructed after another object had configured the radio enters its "
+                    return Finding(l, f"op {k}: a {kind.split('/')[0]} object constructed after another object had configured the radio enters its "
                                       f"block with register {key}={r.get(key)}; on a fresh chip it is {want}", {"op_index": k})
     return None
 
@@ -189,6 +213,10 @@ class C09(PropCheck):
         cs += [(session(rng, nb, 4, overlap=True), "overlapping-blocks") for _ in range(n // 4)]
         cs += [(net_session(rng, nb, max(3, d // 2)), "node-with-interleavings") for _ in range(n // 2)]
         cs += [(used_radio_session(rng, d), "constructed-on-used-radio") for _ in range(n // 2)]
+        chains = constructor_chain_sessions()
+        cs += [(c, "constructor-chains") for c in chains]
+        res.exhaustive_blocks.append(f"all {len(chains)} chains of <= 3 RF24 / FakeBLE constructors on a plus and a non-plus chip, "
+                                     "every object's block entered twice")
         return cs
 
     def nontrivial(self, line, io):
@@ -198,7 +226,7 @@ class C09(PropCheck):
         """the Python rendering of the spec, cross-checked by the Lean one (Spec.Restored / Spec.PoweredDown
         through the driver ops `specc09 …`): a re-entry / exit the Lean spec rejects is a finding, too"""
         out = self.judge_py(triples)
-        out += [f for f in (judge_used_radio(l, io) for l, io, mo in triples if l.startswith(USED_HEAD) and " ; new a " in l) if f]
+        out += [f for f in (judge_used_radio(l, io) for l, io, mo in triples if l.startswith(USED_HEADS) and " ; new a " in l) if f]
         seen = {f.case for f in out}
         lines, where = [], []
         for l, io, mo in triples:
@@ -232,12 +260,9 @@ class C09(PropCheck):
             if not ans.startswith("fail"):
                 raise Infra(f"specc09 rejected its input: {ans}: {line[:300]}")
             seen.add(l)
-            cls = None
-            if l.startswith("rf 1 0 ") and ans in ("fail dyn", "fail feat"):
-                cls = "nonplus-activate"
             what = (f"entering {obj}'s block: register {ans[5:]} differs from what the object had established (Spec.Restored)"
                     if line.startswith("specc09 enter") else f"leaving {obj}'s block: not powered down with CE low (Spec.PoweredDown)")
-            out.append(Finding(l, f"op {k}: {what}", {"op_index": k, "class": cls}))
+            out.append(Finding(l, f"op {k}: {what}", {"op_index": k}))
         return out
 
     def judge_py(self, triples):
@@ -273,10 +298,7 @@ class C09(PropCheck):
                     break
                 est[obj] = cur
             if what:
-                cls = None
-                if l.startswith("rf 1 0 ") and ("register dyn=" in what or "register feat=" in what):
-                    cls = "nonplus-activate"
-                out.append(Finding(l, f"op {k} `{' '.join(t)}`: {what}", {"op_index": k, "class": cls}))
+                out.append(Finding(l, f"op {k} `{' '.join(t)}`: {what}", {"op_index": k}))
         return out
 
 
